@@ -198,4 +198,13 @@ def grid(seed, scale=1.0):
         a, b = rnd.choice(funs), rnd.choice(funs)
         add("nested", rnd.choice([A("str.len", a), A("str.++", a, b), A("str.contains", a, b), A("str.to.int", A("str.from_int", A("str.len", a))),
                                   A("str.indexof", a, b, I(0)), A("str.prefixof", b, a)]))
+    # numerals beyond 2^31 / 2^53 (family "bignum": judged against Z3 only, TLC's integers are 32-bit)
+    bigs = ["2147483648", "4294967296", "9007199254740992", "9007199254740993", "9007199254740994", "18446744073709551616",
+            "99999999999999999999", "100000000000000000000", "123456789012345678", "123456789012345679"]
+    for a, b in itertools.product(bigs, bigs):
+        for f in ("<", "=", "<="):
+            add("bignum", A(f, A("str.to.int", S(a)), A("str.to.int", S(b))))
+    for a in bigs:
+        add("bignum", A("=", A("+", A("str.to.int", S(a)), I(1)), A("str.to.int", S(str(int(a) + 1)))))
+        add("bignum", A("=", A("str.len", A("str.from_int", A("str.to.int", S(a)))), I(len(a))))
     return out
